@@ -212,6 +212,10 @@ func c07History(c *vc.Ctx, idx int) {
 	cfg := lockCfg{Label: "c07", NVals: 3 + idx%3, MaxVals: 4, Blocks: c.Pick(36, 110), Protect0: true, Adversarial: true, JumpTime: idx%2 == 1,
 		W:         lockWeights{Create: 15, Lock: 50, Unlock: 35, Claim: 15, Grant: 10, Weight: 12, Threshold: 10, Absent: 20, Evidence: 6, DustLock: 10, BigUnlock: 15},
 		NRelayers: 4, Relayer: func(g *relayertypes.GenesisState) { g.Params.ElectingPeriod = 20 * time.Second }}
+	if idx%4 != 3 {
+		// a short halving interval: the quick histories end in the third reward era (halvings = 2 from height 28)
+		cfg.Params = func(p *lockingtypes.Params) { p.HalvingInterval = 14 }
+	}
 	if idx%4 == 3 {
 		// a history on the machine's own clock, as on a live network: block times are the wall clock at proposal time and
 		// every period (unlock, exit, jail, election, evidence age) lasts a few block intervals, i.e. 150-600 ms. The
@@ -486,6 +490,7 @@ func c07History(c *vc.Ctx, idx int) {
 			return outs, err
 		}})
 	}
+	disagreed := false
 	for _, rp := range reps {
 		outs, err := rp.run()
 		os.Remove(recFile + ".r2")
@@ -509,7 +514,14 @@ func c07History(c *vc.Ctx, idx int) {
 			what := c07Diff(p, o)
 			c.Violation("replicas disagree on "+what.field, fmt.Sprintf("height %d, %s (repeat %d): primary %s, replica %s", o.Height, rp.name, o.Repeat, what.a, what.b),
 				map[string]any{"history": h.replay(), "height": o.Height, "replica": rp.name})
+			disagreed = true
 			break
+		}
+		if disagreed {
+			// one disagreement settles this history; the remaining replicas would re-execute a history that is already
+			// known to depend on where it runs (and a process-local state that grows with every execution may make them crawl)
+			c.Count("histories_settled_by_the_first_disagreeing_replica", 1)
+			return
 		}
 	}
 	if idx%2 == 0 || c.Thorough() {
